@@ -154,6 +154,11 @@ def _gen_case(rng, t):
         case["strategy_obj"] = True   # a MoScalarFunction instance instead of the strategy name
     if not case["fail"] and surrogate != "GP" and rng.random() < 0.2:
         case["lies"] = rng.choice(["cl_max", "cl_max", "cl_min", "cl_mean"])   # constant-liar batch after the last fit
+    elif not case["fail"] and surrogate != "GP" and kind == "aligned" and not case.get("bounds") and rng.random() < 0.3:
+        # one-shot / q-acquisition batch after the last fit (every candidate observed, kappa = 0, interpolating forest)
+        strat = rng.choice(["topk", "topk", "boltzmann", "qUCB", "qUCBd"])
+        case["interp"] = True
+        case["batch"] = {"strategy": strat, "n": 24 if strat == "boltzmann" else rng.choice([2, 3, 5])}
     return case
 
 
@@ -326,7 +331,7 @@ def _observe(case):
                 n_points=60 + 10 * K, filter_duplicated=False, objective_scaler=case["scaler"],
                 moo_scalarization_strategy=strategy, moo_scalarization_weight=case["weights"],
                 filter_failures=case.get("ff", "min"), moo_lower_bounds=case.get("bounds"),
-                multi_point_strategy=case.get("lies") or "cl_max",
+                multi_point_strategy=case.get("lies") or (case.get("batch") or {}).get("strategy") or "cl_max",
             )
             if case.get("route") == "fit_surrogate":
                 import pandas as pd
@@ -351,9 +356,13 @@ def _observe(case):
             nf, na = len(rec["fit"]), len(rec["acq"])
             if case.get("lies"):
                 rec["lie_flag"] = True
-                out["batch"] = [int(x["a"]) for x in search.ask(3)]
+                out["lie_batch"] = [int(x["a"]) for x in search.ask(3)]
                 rec["lie_flag"] = False
                 out["lies"] = rec["lies"]
+            if case.get("batch"):
+                nr = len(rec["rvs"])
+                out["batch"] = [int(x["a"]) for x in search.ask(int(case["batch"]["n"]))]
+                out["batch_fresh"] = [int(x[0]) for x in rec["rvs"][-1]] if len(rec["rvs"]) > nr else None
             out["told_a"] = told
             out["proposals"] = proposals
             out["fits"] = rec["fit"][:nf]      # the constant-liar batch refits copies of the optimizer: not part of the history
@@ -423,7 +432,13 @@ def _observe_safe(case):
 
 def _observe_mono_safe(case):
     with _Quiet():
-        return _observe_mono(case)
+        out = _observe_mono(case)
+        if case.get("pair_offset_mult") is not None and not out["error"]:
+            c2 = dict(case)
+            c2["offset_mult"] = case["pair_offset_mult"]
+            o2 = _observe_mono(c2)
+            out["a_shift"], out["error_shift"] = o2.get("a"), o2["error"]
+        return out
 
 
 # --------------------------------------------------------------------------- judging
@@ -632,6 +647,65 @@ def _judge_fit(ck, case, obs, rep, eff, i, failed_before, pending):
     return None
 
 
+def _judge_batch(ck, case, obs, eff):
+    """a batch asked with a one-shot (topk, boltzmann) or q-acquisition (qUCB, qUCBd) strategy after the last fit: every candidate
+    observed, kappa = 0, interpolating forest, objectives aligned with a score.  The candidate SAMPLE contains every candidate many
+    times, so "the k best" is meant as a multiset over the sample."""
+    strat, k = case["batch"]["strategy"], int(case["batch"]["n"])
+    batch = obs["batch"]
+    a = obs["acqs"][-1]
+    cands, vals = a["cands"], a["values"]
+    score = case["scores"]
+    told = set(obs["told_a"])
+    ck.count(f"batch:{strat}")
+    fp = f"C05|batch-not-the-best|CBO.ask(n>1)|multi_point_strategy={strat}"
+    if len(batch) != k or not set(batch) <= told or not set(cands) <= told or len(cands) != len(vals):
+        ck.mismatch(case, {"what": "batch ask: unexpected batch size / unobserved candidates", "batch": batch, "n": k})
+        return
+    val_of = {}
+    for c, v in zip(cands, vals):
+        val_of.setdefault(c, v)
+    # contract of the surrogate as observed: its predictions order the candidates like their scores (an interpolating forest does,
+    # unless the targets are so close that the trees no longer split them)
+    ids = sorted(val_of, key=lambda c: score[c])
+    faithful = all(val_of[x] > val_of[y] for x, y in zip(ids, ids[1:]))
+    ck.count("batch:surrogate-contract:" + ("met" if faithful else "not-met"))
+    detail = {"strategy": strat, "batch": batch, "scores_of_batch": [score[c] for c in batch], "best_scores_in_the_sample": sorted((score[c] for c in cands), reverse=True)[:k],
+              "last_proposal": obs["proposals"][-1]}
+    if strat == "topk":
+        if not all(c in val_of for c in batch) or sorted(val_of[c] for c in batch) != sorted(vals)[:k]:
+            ck.mismatch(case, {"what": "topk batch is not the k smallest acquisition values of the last candidate sample", "batch": batch,
+                               "batch_values": [val_of.get(c) for c in batch], "smallest": sorted(vals)[:k]})
+        if faithful and sorted((score[c] for c in batch), reverse=True) != sorted((score[c] for c in cands), reverse=True)[:k]:
+            ck.fail(fp, "with every candidate observed and kappa=0 a topk batch of k is not made of the k best candidates of the sample", case, detail)
+    elif strat in ("qUCB", "qUCBd"):
+        fresh = obs.get("batch_fresh")
+        if fresh is None or not set(fresh) <= told:
+            ck.mismatch(case, {"what": "qUCB batch: the fresh candidate sample was not observed", "fresh": fresh and fresh[:20]})
+            return
+        want = sorted((score[c] for c in fresh), reverse=True)[: k - 1]
+        detail["best_scores_in_the_fresh_sample"] = want
+        # (the first member is the optimizer's current next point; since "ask again before any tell returns new configurations" it need
+        # not be the configuration the preceding ask(1) returned, so only its score is judged)
+        if faithful and (score[batch[0]] != max(score[c] for c in cands) or sorted((score[c] for c in batch[1:]), reverse=True) != want):
+            ck.fail(fp, "with every candidate observed and kappa=0 a qUCB batch is not made of the best candidates", case, detail)
+    else:  # boltzmann: the first member is the best candidate, the draws favour larger objectives
+        rest = [score[c] for c in batch[1:]]
+        pop = [score[c] for c in cands]
+        mu_u = sum(pop) / len(pop)
+        sd_u = (sum((x - mu_u) ** 2 for x in pop) / len(pop)) ** 0.5
+        z = (sum(rest) / len(rest) - mu_u) / (sd_u / len(rest) ** 0.5) if sd_u > 0 else 0.0
+        ck.count("batch:boltzmann:z" + (">=2" if z >= 2 else ">=0" if z >= 0 else "<0"))
+        detail["z_of_the_draws_against_uniform"] = z
+        if not faithful:
+            return
+        if score[batch[0]] != max(score[c] for c in cands):
+            ck.fail(fp, "the first member of a boltzmann batch is not the best candidate", case, detail)
+        elif z < -1.5:
+            ck.fail(f"C05|batch-favours-small-objectives|CBO.ask(n>1)|multi_point_strategy={strat}",
+                    "the boltzmann draws favour candidates with SMALLER objectives than a uniform draw would", case, detail)
+
+
 def _judge_lies(ck, case, obs, eff, pending):
     """constant-liar batch after the last fit: the lies told to the optimizer copy (internal, negated scale) vs the model's
     `lieInternal (mapMultiPoint name)`, and — the direction — vs the max / mean / min of the OBJECTIVES the user-facing name promises"""
@@ -689,6 +763,8 @@ def _judge(ck, case, obs, reps, eff, pending):
                            "rounds": 1 + len(case.get("rounds", []))})
     if case.get("lies"):
         _judge_lies(ck, case, obs, eff, pending)
+    if case.get("batch") and obs.get("batch") is not None and obs["acqs"]:
+        _judge_batch(ck, case, obs, eff)
     out = None
     failed_before = set()
     for i in range(nfit):
@@ -703,25 +779,39 @@ def _monotone_case(rng, t):
     """(a) `climb`: 8 fixed initial points in the lower 55 % of 0..K-1 (best well below the maximiser), identity scaler
     (explicit, or `auto` with GP), every strategy — distance-based ones most often — x {ET, GP};
     (b) random initial points over the whole range, whole matrix."""
-    r = t % 10
-    if r < 6:
+    r = t % 12
+    init_q = (0.025, 0.1, 0.175, 0.25, 0.325, 0.4, 0.475, 0.55)
+    if r < 8:
         K = rng.choice([101, 201])
-        sur = "ET" if r < 4 else "GP"
-        # GP + Quadratic is left to ET: with quadratically growing targets the GP mean reverts to its prior beyond the data and
-        # the climb rate becomes a property of the surrogate (10-70 % of the way in 20 steps on correct code), not of the direction;
-        # that combination stays covered by the surrogate-independent clauses at every fit of the multi-fit histories
-        strat = DISTANCE[r] if r < 4 else DISTANCE[:3][((t // 10) * 2 + (r - 4)) % 3]
-        if rng.random() < 0.1:
-            strat = "Linear"
-        init = [int(round((K - 1) * q)) for q in (0.025, 0.1, 0.175, 0.25, 0.325, 0.4, 0.475, 0.55)]
+        init = [int(round((K - 1) * q)) for q in init_q]
+        if r < 6:
+            sur = "ET" if r < 4 else "GP"
+            # GP + Quadratic is left to ET: with quadratically growing targets the GP mean reverts to its prior beyond the data and
+            # the climb rate becomes a property of the surrogate (10-70 % of the way in 20 steps on correct code), not of the direction;
+            # that combination stays covered by the surrogate-independent clauses at every fit of the multi-fit histories
+            strat = DISTANCE[r] if r < 4 else DISTANCE[:3][((t // 12) * 2 + (r - 4)) % 3]
+            if rng.random() < 0.1:
+                strat = "Linear"
+            return {"mono": True, "climb": True, "surrogate": sur, "scaler": "auto" if sur == "GP" and rng.random() < 0.5 else "identity",
+                    "strategy": strat, "nobj": rng.choice([2, 2, 3]), "K": K,
+                    "sign": ["pos", "neg", "mixed"][(t // 2) % 3], "seed": rng.randrange(1 << 20), "init": init,
+                    "offset_mult": rng.choice([0, 0, 1000, -1000]), "n_evals": 8 + (20 if sur == "GP" else 24)}
+        # the same partially observed problem with the objective f and with f + c, c = +-1000 x spread (single objective: no utopia
+        # subtraction, identity scaler: the surrogate sees the raw offset); both runs must keep climbing
+        sur = "GP" if r == 6 else rng.choice(["ET", "RF"])
         return {"mono": True, "climb": True, "surrogate": sur, "scaler": "auto" if sur == "GP" and rng.random() < 0.5 else "identity",
-                "strategy": strat, "nobj": rng.choice([2, 2, 3]), "K": K,
-                "sign": ["pos", "neg", "mixed"][(t // 2) % 3], "seed": rng.randrange(1 << 20), "init": init,
-                "n_evals": 8 + (20 if sur == "GP" else 24)}
-    # random initial points over 0..19, whole matrix, and the other acquisition functions (none of them is exploitation-only:
-    # EI / PI weigh the improvement by the predictive std, MES is information-based, gp_hedge mixes EI, LCB, PI)
-    acq = {6: "UCB", 7: "MES", 8: "gp_hedge", 9: rng.choice(["EI", "PI"])}[r]
-    sur = SURROGATES[(t // 10) % 3] if acq != "MES" or rng.random() < 0.5 else "ET"
+                "strategy": "Chebyshev", "nobj": 0 if rng.random() < 0.7 else 2, "K": K, "sign": "mixed", "seed": rng.randrange(1 << 20), "init": init,
+                "offset_mult": 0, "pair_offset_mult": rng.choice([1000, -1000]), "n_evals": 8 + (20 if sur == "GP" else 24)}
+    # random initial points over 0..19, whole matrix; the other acquisition functions (none of them is exploitation-only:
+    # EI / PI weigh the improvement by the predictive std, MES is information-based, gp_hedge mixes EI, LCB, PI) and
+    # multi-worker searches with the batch strategies
+    if r == 8:
+        sur = SURROGATES[(t // 12) % 3]
+        return {"mono": True, "surrogate": sur, "scaler": SCALERS[(t // 3) % 4], "strategy": STRATS[t % 5], "nobj": rng.choice([0, 2, 3]), "K": 20,
+                "sign": ["pos", "neg", "mixed"][(t // 2) % 3], "seed": rng.randrange(1 << 20), "n_evals": 32 if sur == "GP" else 40, "acq": "UCB",
+                "workers": 4, "mps": ["topk", "boltzmann", "qUCB", "topk", "cl_max", "qUCBd"][(t // 12) % 6] if sur != "GP" or (t // 12) % 6 != 5 else "topk"}
+    acq = {9: "MES", 10: "gp_hedge", 11: rng.choice(["EI", "PI", "UCB"])}[r]
+    sur = SURROGATES[(t // 12) % 3] if acq != "MES" or rng.random() < 0.5 else "ET"
     return {"mono": True, "surrogate": sur, "scaler": SCALERS[(t // 3) % 4], "strategy": STRATS[t % 5], "nobj": rng.choice([0, 2, 3]), "K": 20,
             "sign": ["pos", "neg", "mixed"][(t // 2) % 3], "seed": rng.randrange(1 << 20), "n_evals": 26 if sur == "GP" else 36, "acq": acq}
 
@@ -729,7 +819,8 @@ def _monotone_case(rng, t):
 def _mono_objs(case):
     K, m = case["K"], max(case["nobj"], 1)
     off = {"pos": 50.0, "neg": -50.0 - K, "mixed": -K / 2.0}[case["sign"]]
-    if case.get("climb"):   # (x, 2x+3, 3x+6, ...) plus the sign-class offset
+    off += case.get("offset_mult", 0) * float(K - 1)   # a constant far from zero relative to the spread of the objective
+    if case.get("climb"):   # (x, 2x+3, 3x+6, ...) plus the offsets
         return [[(i + 1) * float(a) + 3.0 * i + off * (i + 1) for i in range(m)] for a in range(K)]
     return [[(i + 1) * float(a) + off * (i + 1) for i in range(m)] for a in range(K)]
 
@@ -751,10 +842,12 @@ def _observe_mono(case):
     tmp = tempfile.mkdtemp(prefix="c05m_")
     out = {"error": None}
     try:
-        ev = Evaluator.create(_run_function, method="serial")
+        ev = Evaluator.create(_run_function, method="serial", method_kwargs={"num_workers": int(case.get("workers", 1))})
         extra = {}
         if case.get("init"):
             extra = {"initial_points": [{"a": int(a)} for a in case["init"]]}
+        if case.get("mps"):
+            extra["multi_point_strategy"] = case["mps"]
         search = CBO(problem, ev, random_state=case["seed"], log_dir=tmp, verbose=0, surrogate_model=case["surrogate"],
                      surrogate_model_kwargs={"n_estimators": 25} if case["surrogate"] != "GP" else None,
                      acq_func=case.get("acq", "UCB"), acq_optimizer="sampling", n_initial_points=8, n_points=300 if case.get("climb") else 200,
@@ -788,9 +881,24 @@ def _judge_mono(ck, case, obs, eff):
         init = case["init"]
         if a[: len(init)] != init:
             ck.mismatch(case, {"what": "the given initial points were not evaluated first", "evaluated": a[: len(init)]})
+        best_init = max(init)
+        thr0 = best_init + 0.2 * (top - best_init)
+        if case.get("pair_offset_mult") is not None:
+            # f and f + c (same seed): both searches must keep climbing
+            if obs.get("error_shift"):
+                ck.fail(f"C05|raises|CBO.search|{obs['error_shift'].split(':')[0]}", "search raised on a monotone problem with a large constant offset", case, obs)
+                return
+            b = obs["a_shift"]
+            m0, m1 = sum(a[-6:]) / 6, sum(b[-6:]) / 6
+            ck.count("climb-pair:" + ("same-sequence" if a == b else "both-climb" if m0 > thr0 and m1 > thr0 else "differ"))
+            if m0 > thr0 and m1 <= thr0:
+                ck.fail(f"C05|shift-breaks-the-climb|CBO.search|surrogate={case['surrogate']},scaler={eff}" + (",single-objective" if case["nobj"] == 0 else f",strategy={case['strategy']}"),
+                        "adding a constant to the objective(s) of a partially observed monotone problem stops the search from reaching the maximiser", case,
+                        {"offset": case["pair_offset_mult"] * (case["K"] - 1), "proposals_f": a, "proposals_f_plus_c": b, "late_mean_f": m0, "late_mean_f_plus_c": m1,
+                         "best_initial_point": best_init, "maximiser": top, "threshold": thr0})
+                return
         late = a[-6:]
         mean_late = sum(late) / len(late)
-        best_init = max(init)
         # a search that keeps climbing has covered, at the end, well over 20 % of the way from the best initial point to
         # the maximiser (measured on correct code: >= 30 % in the slowest combination, GP + Quadratic, >= 80 % elsewhere);
         # a search pulled back to the best point of its first surrogate fit stays below 15 %
@@ -810,9 +918,14 @@ def _judge_mono(ck, case, obs, eff):
         # improvement-based acquisitions explore wherever the predictive std is 0 at the observed points (fully grown forests):
         # exercised (must not raise), measured, not asserted
         return
-    if mean_late <= mid:
-        # for a non-default acquisition the option the failure hangs on is the acquisition itself (observed with every scaler / strategy)
-        fp = _fp("concentrates-away-from-maximiser", case, eff, "CBO.search") if acq == "UCB" else f"C05|concentrates-away-from-maximiser|CBO.search|acq_func={acq}"
+    mps = case.get("mps")
+    if mps:
+        ck.count(f"mono:workers={case.get('workers', 1)},multi_point_strategy={mps}")
+    # boltzmann keeps sampling over the whole range by design (measured late means 0.53-0.91 of the range on correct code)
+    if mean_late <= (0.3 * top if mps == "boltzmann" else mid):
+        # for a non-default acquisition / batch strategy the option the failure hangs on is that option (observed with every scaler / strategy)
+        fp = (f"C05|concentrates-away-from-maximiser|CBO.search|multi_point_strategy={mps},workers>1" if mps else
+              _fp("concentrates-away-from-maximiser", case, eff, "CBO.search") if acq == "UCB" else f"C05|concentrates-away-from-maximiser|CBO.search|acq_func={acq}")
         ck.fail(fp,
                 "on a monotone problem (objective increasing in a) the late proposals concentrate in the lower half", case,
                 {"proposals": a, "late_mean": mean_late, "midpoint": mid})
@@ -1057,7 +1170,7 @@ def run(ck):
     ck.trusted_extra = ["scikit-learn forests / GaussianProcessRegressor / QuantileTransformer / MinMaxScaler numerics", "numpy argmin tie-breaking = first index"]
     workers = min(16, os.cpu_count() or 1) if ck.thorough else 1
     nbase = ck.pick(110, 2400)
-    nmono = ck.pick(10, 160)
+    nmono = ck.pick(12, 168)
     corpus = _load_corpus()
     cases = [c for c in corpus if not c.get("mono")]
     cases += [_gen_case(ck.rng, t) for t in range(nbase)]
